@@ -84,7 +84,8 @@ def run(R, ctx):
     # isolation: nothing of a malformed tail is executed, the offending connection is closed, other connections carry on
     rule = R.rule
     servesuite.run_serve_suite(R, ctx, "isolation", (80, 1500), "Protocol damage inside pipelines: the commands before it are answered, "
-                               "the connection is closed, nothing after it is executed (probed from another connection).", pubsub=False)
+                               "the connection is closed, nothing after it is executed (probed from another connection). Half-closed pipelines: 50-400 commands on a TCP connection whose sending "
+                               "side is closed at once; every command written is decoded, executed and answered.", pubsub=False, halfclose=3)
     R.rule = rule + " Plus serve sessions: " + R.rule
     if ctx.broken and not d["mismatches"]:
         R.violation("proof-broken", dict(kind="proof-broken", broken=ctx.broken,
